@@ -32,7 +32,14 @@ TOpt == /\ Step("Opt") /\ Keep /\ UNCHANGED <<verdicts, ref>>
         /\ (Ev.rc # Ev.plainrc) => Report2("option-changes-verdict", "")
         /\ (Ev.opt = "-i" /\ \E i \in 1..Len(Ev.diags) : Ev.diags[i].sev = "WARNING" /\ Ev.diags[i].cls = Ev.cls) => Report2("ignored-class-still-printed", "")
         /\ (Ev.opt = "-w" /\ Ev.expectwarn /\ ~\E i \in 1..Len(Ev.diags) : Ev.diags[i].sev = "WARNING" /\ Ev.diags[i].cls = Ev.cls) => Report2("enabled-class-not-printed", "")
+(* C20: the same formula on inputs with an ERROR fault: an option either names a warning class - then nothing but *)
+(* class-c warnings may change, in particular not the verdict - or the tool refuses it outright (usage text,     *)
+(* nothing processed).  Naming the class of an ERROR diagnostic must never make the error disappear.            *)
+TOptFault == /\ Step("OptFault") /\ Keep /\ UNCHANGED <<verdicts, ref>>
+             /\ (~Ev.refused /\ Ev.rc # Ev.plainrc) => Report2("option-changes-verdict", "")
+             /\ (~Ev.refused /\ Filter(Ev.diags, Ev.cls) # Filter(ref, Ev.cls)) => Report2("option-changes-other-diagnostics", "")
+             /\ (Ev.refused /\ Len(Ev.diags) > 0) => Report2("refused-option-but-input-processed", "")
 TInit == Init /\ l = 1 /\ verdicts = {} /\ ref = <<>>
-TNext == TInput \/ TRun \/ TDiag \/ TRef \/ TOpt
+TNext == TInput \/ TRun \/ TDiag \/ TRef \/ TOpt \/ TOptFault
 TraceAccepted == TLCGet("stats").diameter - 1 = Len(TraceLog)
 ====
